@@ -9,5 +9,5 @@ CONSTRAINT Consumed
 POSTCONDITION TraceAccepted
 INVARIANT ReportState
 INVARIANT TypeOK
-INVARIANT CrashSafe
+INVARIANT ReportCrashSafe
 INVARIANT OutputFunctional
